@@ -290,6 +290,8 @@ type ConnSpec struct {
 	// server, i.e. before the post-auth message can be delivered: the handshake fails on the server
 	// AFTER it has filed the session
 	CutAfter int `json:"cut_after,omitempty"`
+	// Masks (kind deviant): the peer's part of the method-selection loop, see deviate.go
+	Masks []MaskStep `json:"masks,omitempty"`
 }
 type Event struct {
 	Conn   *ConnSpec   `json:"conn,omitempty"`
@@ -360,6 +362,10 @@ type sessInfo struct {
 	authReal bool
 	key      []byte
 	honest   bool // the client-side cache holds it
+	// ghost: the session's original connection was driven by a scripted peer that logged
+	// every authentication exchange it took part in (exch)
+	ghost bool
+	exch  []exch
 }
 
 type postAuth struct {
@@ -375,6 +381,8 @@ type connRun struct {
 	authReal bool
 	user     string
 	failures []string
+	ghost    bool   // exch is the scripted peer's log for this session's original connection
+	exch     []exch
 }
 
 type caseRun struct {
@@ -392,6 +400,7 @@ type caseRun struct {
 	custom   *security.SessionCache     // non-nil: the server config's own cache
 	checks   int
 	mu       sync.Mutex
+	tags     []string // distribution counters
 }
 type fail struct{ key, desc string }
 
@@ -614,6 +623,12 @@ func (r *caseRun) oracleAtCall(cr *connRun, k int, inv Inv) {
 		return
 	}
 	ra, re := req(t.policy(inv.Cmd))
+	// the scripted peer's own log: a handler registered as authenticated for a command whose
+	// current policy requires authentication ran => some authentication exchange really
+	// completed successfully on this session's original connection
+	if ra && cr.ghost && !anyOK(cr.exch) {
+		r.bad(cr, "handler-ran-on-unauthenticated-session", "handler %d of command %d (authentication REQUIRED now) ran on a session over whose original connection no authentication exchange completed (peer's log: %v; session reports Authentication=%t User=%q; client %s masks=%v)", inv.Handler, inv.Cmd, cr.exch, inv.Authn, inv.User, sp.Kind, sp.Masks)
+	}
 	if ra && !inv.Authn {
 		r.bad(cr, "authn-required-session-unauthenticated", "command %d requires authentication now; session reports Authentication=false", inv.Cmd)
 	}
@@ -702,11 +717,17 @@ type clientResult struct {
 	authReal bool
 	encReal  bool // the client saw the server switch to protected frames
 	sent     int  // follow-on commands written
+	// scripted peers: the log of authentication exchanges (ghost), whether the server
+	// opened an authentication phase at all
+	ghost     bool
+	exch      []exch
+	authPhase bool
 }
 
 // scriptedFull speaks the handshake through the public message API and
 // deviates in its key material: it never completes key agreement.
 func (r *caseRun) scriptedFull(ctx context.Context, st *stream.Stream, sp *ConnSpec) (res clientResult) {
+	res.ghost = true
 	ad := classad.New()
 	_ = ad.Set("AuthMethods", "CLAIMTOBE")
 	_ = ad.Set("CryptoMethods", "AES")
@@ -747,6 +768,7 @@ func (r *caseRun) scriptedFull(ctx context.Context, st *stream.Stream, sp *ConnS
 			return
 		}
 		ack, err := recvInt(ctx, st)
+		res.exch = append(res.exch, exch{"CLAIMTOBE", err == nil && ack == 1})
 		if err != nil || ack != 1 {
 			return
 		}
@@ -876,6 +898,9 @@ func (r *caseRun) runConn(sp *ConnSpec) (obsTerm string, connTerm string) {
 	case "scripted":
 		first = "(Some " + core.Z(commands.DC_AUTHENTICATE) + ")"
 		res = r.scriptedFull(ctx, st, sp)
+	case "deviant":
+		first = "(Some " + core.Z(commands.DC_AUTHENTICATE) + ")"
+		res = r.deviantFull(ctx, st, sp)
 	case "resume":
 		first = "(Some " + core.Z(commands.DC_AUTHENTICATE) + ")"
 		if sp.ResumeOf >= 1 && sp.ResumeOf <= len(r.sess) {
@@ -897,8 +922,22 @@ func (r *caseRun) runConn(sp *ConnSpec) (obsTerm string, connTerm string) {
 			res = r.scriptedResume(ctx, st, sp, resumeSess)
 		}
 		res.authReal, res.user = resumeSess.authReal, resumeSess.user
+		res.ghost, res.exch = resumeSess.ghost, resumeSess.exch
 	}
 	cr.authReal, cr.user = res.authReal, res.user
+	cr.ghost, cr.exch = res.ghost, res.exch
+	if sp.Kind == "deviant" {
+		switch {
+		case !res.hsOK:
+			r.tags = append(r.tags, "deviant-handshake/refused-or-abandoned")
+		case !res.authPhase:
+			r.tags = append(r.tags, "deviant-handshake/completed-no-authentication-phase")
+		case anyOK(res.exch):
+			r.tags = append(r.tags, "deviant-handshake/completed-after-a-real-exchange")
+		default:
+			r.tags = append(r.tags, "deviant-handshake/completed-WITHOUT-any-exchange")
+		}
+	}
 
 	// follow-on commands, until the server stops reading
 	if res.hsOK && sp.Kind != "raw" {
@@ -922,7 +961,7 @@ func (r *caseRun) runConn(sp *ConnSpec) (obsTerm string, connTerm string) {
 
 	// handshake input of the model
 	switch sp.Kind {
-	case "honest", "scripted":
+	case "honest", "scripted", "deviant":
 		if cr.post != nil && res.sid == "" && sp.CutAfter > 0 {
 			// the client never learned the id of the session the server filed: find it by this
 			// connection's (unique) peer address
@@ -939,6 +978,7 @@ func (r *caseRun) runConn(sp *ConnSpec) (obsTerm string, connTerm string) {
 			}
 			si := r.sess[sidx-1]
 			si.user, si.authReal, si.honest = cr.post.user, res.authReal, sp.Kind == "honest"
+			si.ghost, si.exch = res.ghost, res.exch
 			hasKey := false
 			if e, ok := security.GetSessionCache().Lookup(res.sid); ok && e.KeyInfo() != nil {
 				hasKey = true
@@ -1136,6 +1176,11 @@ var importCounter int
 var importMu sync.Mutex
 
 func runCase(spec *CaseSpec) (term string, checks int, fails []fail) {
+	t, c, f, _ := runCaseTags(spec)
+	return t, c, f
+}
+
+func runCaseTags(spec *CaseSpec) (term string, checks int, fails []fail, tags []string) {
 	r := &caseRun{spec: spec, sids: map[string]int{}, handlers: map[int]server.HandlerFunc{}, cliCache: security.NewSessionCache()}
 	if spec.Custom {
 		r.custom = security.NewSessionCache()
@@ -1252,7 +1297,7 @@ func runCase(spec *CaseSpec) (term string, checks int, fails []fail) {
 	for _, t := range spec.Tables {
 		tabs = append(tabs, t.term())
 	}
-	return fmt.Sprintf("(CHist %s %s %s)", core.List(tabs), core.List(evs), core.List(obs)), r.checks, r.fails
+	return fmt.Sprintf("(CHist %s %s %s)", core.List(tabs), core.List(evs), core.List(obs)), r.checks, r.fails, r.tags
 }
 
 // ---- generation --------------------------------------------------------------------------------
@@ -1482,6 +1527,57 @@ func generate(c *core.Ctx) []*CaseSpec {
 			}
 		}
 	}
+	// (11) deviating (non-cedar) peers in the authentication phase of the REAL handshake, composed
+	// with the real dispatch: the first command is negotiated at a level that does not insist on
+	// authentication (per-command policies, PREFERRED/OPTIONAL on either side), the peer gives up
+	// with bitmask 0 and stays on the line / selects a method and fails, garbles or abandons it /
+	// fails and then succeeds; then commands whose policy REQUIRES authentication (and
+	// encryption) follow on the kept-alive connection and, on a second connection, on the
+	// resumed session. Ground truth = the peer's own log of completed exchanges.
+	{
+		pref := base.clone()
+		pref.Default = &Pol{"PREFERRED", "OPTIONAL", "OPTIONAL"}
+		pref.setPolicy(cmdP, Pol{"PREFERRED", "OPTIONAL", "OPTIONAL"})
+		type tv struct {
+			name string
+			t    *Tables
+			c0s  []int
+		}
+		for _, v := range []tv{
+			{"base", withAuthz(base, "none"), []int{cmdP, cmdN, cmdI, cmdA}},
+			{"generous", withAuthz(base, "generous"), []int{cmdP, cmdI}},
+			{"preferred", withAuthz(pref, "none"), []int{cmdP, cmdN, cmdI}},
+		} {
+			for _, ds := range deviantScripts {
+				for _, c0 := range v.c0s {
+					for _, lvl := range []string{"PREFERRED", "OPTIONAL"} {
+						for _, key := range []string{"good", "omit"} {
+							enc := "OPTIONAL"
+							if key == "good" {
+								enc = "PREFERRED"
+							}
+							mk := func(cmds []int) *ConnSpec {
+								return &ConnSpec{Peer: addr1, Kind: "deviant", Authn: lvl, Enc: enc, Name: "alice", Key: key,
+									Masks: ds.masks, Cmds: cmds, Tables: 0}
+							}
+							// kept alive: REQUIRED commands follow on the same connection; then resumed
+							res := &ConnSpec{Peer: addr1, Kind: "resume", ResumeOf: 1, Cmds: []int{cmdA, cmdAE}, Tables: 0}
+							g.add(&CaseSpec{Class: "deviant/" + v.name + "/" + ds.name, Tables: []*Tables{v.t},
+								Events: []Event{{Conn: mk([]int{c0, cmdA, cmdAE})}, {Conn: res}}})
+							if v.name == "base" && (c0 == cmdP || c0 == cmdI) {
+								// one command only, then reconnect: the REQUIRED command is the first of the resumed connection
+								one := mk([]int{c0})
+								one.Steps = []StepSpec{{Ret: "done"}}
+								res2 := &ConnSpec{Peer: addr1, Kind: "resume", ResumeOf: 1, Cmds: []int{cmdAE, cmdP, cmdA}, Tables: 0}
+								g.add(&CaseSpec{Class: "deviant/" + v.name + "/" + ds.name, Tables: []*Tables{v.t},
+									Events: []Event{{Conn: one}, {Conn: res2}}})
+							}
+						}
+					}
+				}
+			}
+		}
+	}
 	// (7) command integers across the int32/int64 boundary: CEDAR integers are 64-bit, so a client
 	// may name registered+2^32 etc.; none of them is a registered command and the handler and the
 	// policy must be looked up under the same key
@@ -1587,6 +1683,7 @@ type result struct {
 	fails  []fail
 	nInv   int
 	checks int
+	tags   []string
 }
 
 func countInv(term string) int { return strings.Count(term, "Build_oinv") }
@@ -1605,12 +1702,12 @@ func runAll(c *core.Ctx, specs []*CaseSpec, maxLen int) []result {
 				defer wg.Done()
 				defer func() { <-sem }()
 				t0 := time.Now()
-				t, n, f := runCase(level[i])
+				t, n, f, tg := runCaseTags(level[i])
 				if d := time.Since(t0); d > 2*time.Second {
 					js, _ := json.Marshal(level[i].Events)
 					fmt.Fprintf(os.Stderr, "slow case %.1fs %s %s\n", d.Seconds(), level[i].Class, js)
 				}
-				res[i] = result{level[i], t, f, countInv(t), n}
+				res[i] = result{level[i], t, f, countInv(t), n, tg}
 			}(i)
 		}
 		wg.Wait()
@@ -1822,6 +1919,9 @@ func genMain(c *core.Ctx) error {
 		c.AddCase(r.term, r.spec)
 		c.Count("hist/" + strings.SplitN(r.spec.Class, "/", 3)[0] + "/" + second(r.spec.Class))
 		c.CountN("invocations", r.nInv)
+		for _, tg := range r.tags {
+			c.Count(tg)
+		}
 		for i := 0; i < r.checks; i++ {
 			c.OracleCheck()
 		}
